@@ -129,7 +129,12 @@ def _get_binding(obj: tp.Callable) -> AbstractBinding:
         unmarshaller: unmarshals.AbstractUnmarshaller = unmarshals.unmarshaller(
             param.annotation
         )
-        binding[name] = binding[i] = unmarshaller
+        # Positional-only and variadic parameters can't be passed by name,
+        #   so their names are free to be used as members of `**kwargs`.
+        if param.kind in (param.POSITIONAL_ONLY, param.POSITIONAL_OR_KEYWORD):
+            binding[i] = unmarshaller
+        if param.kind in (param.POSITIONAL_OR_KEYWORD, param.KEYWORD_ONLY):
+            binding[name] = unmarshaller
         has_kwd_only = has_kwd_only or param.kind == inspect.Parameter.KEYWORD_ONLY
         has_pos_or_kwd = (
             has_pos_or_kwd or param.kind == inspect.Parameter.POSITIONAL_OR_KEYWORD
@@ -331,7 +336,7 @@ class PosKwdBinding(AbstractBinding[P], tp.Generic[P]):
         # Unmarshal the args
         umargs = (*(binding[i](v) if i in binding else v for i, v in enumerate(args)),)
         # Unmarshal the keyword arguments.
-        umkwargs = {k: binding[k](v) if k in binding else k for k, v in kwargs.items()}
+        umkwargs = {k: binding[k](v) if k in binding else v for k, v in kwargs.items()}
         return umargs, umkwargs
 
 
@@ -390,7 +395,7 @@ class KwdArgsBinding(AbstractBinding[P], tp.Generic[P]):
         # Unmarshal the positional arguments
         umargs = (*(varpos(v) for v in args),)
         # Unmarshal the keyword arguments.
-        umkwargs = {k: binding[k](v) if k in binding else k for k, v in kwargs.items()}
+        umkwargs = {k: binding[k](v) if k in binding else v for k, v in kwargs.items()}
         return umargs, umkwargs
 
 
@@ -411,7 +416,7 @@ class KwdBinding(AbstractBinding[P], tp.Generic[P]):
     ) -> tuple[P.args, P.kwargs]:
         binding = self.binding
         # Unmarshal the keyword arguments.
-        umkwargs = {k: binding[k](v) if k in binding else k for k, v in kwargs.items()}
+        umkwargs = {k: binding[k](v) if k in binding else v for k, v in kwargs.items()}
         return args, umkwargs
 
 
@@ -460,7 +465,7 @@ class PosOrKwdBinding(AbstractBinding[P], tp.Generic[P]):
         # Unmarshal the positional args.
         umargs = (*(binding[i](v) if i in binding else v for i, v in enumerate(args)),)
         # Unmarshal the keyword arguments.
-        umkwargs = {k: binding[k](v) if k in binding else k for k, v in kwargs.items()}
+        umkwargs = {k: binding[k](v) if k in binding else v for k, v in kwargs.items()}
         return umargs, umkwargs
 
 
